@@ -18,7 +18,8 @@ INFO = {
     'explanation': 'Binding: for EVERY table (symbolic cells) and every header position p the named reference denotes column p. Lemmas: for EVERY name (symbolic, any Unicode) the escape / index maps are correct. '
                    'Header line: for EVERY CSV text (symbolic) x caller flag {True, False} x modifier {none, header, headers, noheader, noheaders} the output equals the reference reader + "modifier wins" rule; '
                    'NR is 1 on the first data record.',
-    'bounds': 'headers of 3 names; symbolic names len <= 2 (quick) / 3; hostile concrete name pool of 14 names; CSV texts of 2-3 lines x <= 2 characters; tables of 2 rows',
+    'bounds': 'headers of 3 names; symbolic names len <= 2 (quick) / 3; hostile concrete name pool of 14 names; CSV texts of 2-3 lines x <= 2 characters; tables of 2 rows'
+        '; JOIN + WITH modifier with name variables of both tables (6 flag / modifier combinations x attribute and bracket style)',
     'outside': 'names containing an a.ident / b.ident token (excluded by the property); pandas / sqlite header sources (C extensions); non-canonical string-literal spellings of a name',
     'assumptions': ['for a["name"] queries the header names are concrete (they are embedded in generated code that compile() must see)'],
     'trusted': ['crosshair-tool 0.0.110', 'z3', 'CPython 3.12.1'],
